@@ -5374,6 +5374,8 @@ size_t ZSTD_compressEnd_public(ZSTD_CCtx* cctx,
             (unsigned)cctx->consumedSrcSize);
     }
     ZSTD_CCtx_trace(cctx, endResult);
+    /* the pledged size is only valid for one frame : don't let it leak into the next one */
+    cctx->pledgedSrcSizePlusOne = 0;
     return cSize + endResult;
 }
 
